@@ -82,14 +82,18 @@ func genEcScalar(r *rand.Rand, alg int) *ecKey {
 func (k *ecKey) size() int { return (k.curve.Params().BitSize + 7) / 8 }
 
 func coord(r *rand.Rand, v *big.Int, size int, mode int) string {
+	pfx := "b:"
+	if r.Intn(5) == 0 {
+		pfx = "bs:" // the named type key.ByteStr: accepted wherever GetBytes is used
+	}
 	switch mode {
 	case 0: // fixed length
-		return "b:" + hx(v.FillBytes(make([]byte, size)))
+		return pfx + hx(v.FillBytes(make([]byte, size)))
 	case 1: // stripped
-		return "b:" + hx(v.Bytes())
+		return pfx + hx(v.Bytes())
 	default: // extra padding up to 66
 		n := size + r.Intn(67-size)
-		return "b:" + hx(v.FillBytes(make([]byte, n)))
+		return pfx + hx(v.FillBytes(make([]byte, n)))
 	}
 }
 
